@@ -57,7 +57,7 @@ Lemma nthN_out {A} (l : list A) i d : (length l <= N.to_nat i)%nat -> nthN l i d
 Proof. apply nth_overflow. Qed.
 
 (* ------------------------------------------------------------------------------------------ *)
-(* bit fields of a 64-bit token *)
+(* bit fields of a W-bit token *)
 
 Lemma lt_pow2_testbit v w i : v < 2 ^ w -> w <= i -> N.testbit v i = false.
 Proof.
@@ -66,7 +66,8 @@ Proof.
 Qed.
 
 Definition fmask (w k : N) : N := N.shiftl (N.ones w) k.
-Definition fset (r w k v : N) : N := bor (bandn r (fmask w k)) (shl v k).
+(* (r & ^mask) | v << k  in a W-bit unsigned type *)
+Definition fset (W r w k v : N) : N := bor (bandn r (fmask w k)) (N.land (N.shiftl v k) (N.ones W)).
 Definition fget (r w k : N) : N := shr (band r (fmask w k)) k.
 
 Lemma fmask_testbit w k j : N.testbit (fmask w k) j = (k <=? j) && (j <? k + w).
@@ -79,18 +80,21 @@ Proof.
   - apply N.shiftl_spec_low. exact L.
 Qed.
 
-Lemma shl_testbit v k j : N.testbit (shl v k) j = (j <? 64) && (k <=? j) && N.testbit v (j - k).
+Lemma shlW_testbit W v k j :
+  N.testbit (N.land (N.shiftl v k) (N.ones W)) j = (j <? W) && (k <=? j) && N.testbit v (j - k).
 Proof.
-  unfold shl. rewrite w64_testbit. destruct (N.ltb_spec j 64) as [A|A]; cbn [andb]; [|apply andb_false_r].
-  rewrite andb_true_r. destruct (N.leb_spec k j) as [L|L]; cbn [andb].
-  - apply N.shiftl_spec_high'. exact L.
-  - apply N.shiftl_spec_low. exact L.
+  rewrite N.land_spec. destruct (N.ltb_spec j W) as [A|A].
+  - rewrite N.ones_spec_low by exact A. rewrite andb_true_r. cbn [andb].
+    destruct (N.leb_spec k j) as [L|L]; cbn [andb].
+    + apply N.shiftl_spec_high'. exact L.
+    + apply N.shiftl_spec_low. exact L.
+  - rewrite N.ones_spec_high by exact A. apply andb_false_r.
 Qed.
 
-Lemma fset_testbit r w k v j :
-  N.testbit (fset r w k v) j =
-  (N.testbit r j && negb ((k <=? j) && (j <? k + w))) || ((j <? 64) && (k <=? j) && N.testbit v (j - k)).
-Proof. unfold fset, bor, bandn. rewrite N.lor_spec, N.ldiff_spec, fmask_testbit, shl_testbit. reflexivity. Qed.
+Lemma fset_testbit W r w k v j :
+  N.testbit (fset W r w k v) j =
+  (N.testbit r j && negb ((k <=? j) && (j <? k + w))) || ((j <? W) && (k <=? j) && N.testbit v (j - k)).
+Proof. unfold fset, bor, bandn. rewrite N.lor_spec, N.ldiff_spec, fmask_testbit, shlW_testbit. reflexivity. Qed.
 
 Lemma fget_testbit r w k i : N.testbit (fget r w k) i = N.testbit r (i + k) && (i <? w).
 Proof.
@@ -99,18 +103,18 @@ Proof.
   destruct (N.ltb_spec (i + k) (k + w)), (N.ltb_spec i w); try reflexivity; lia.
 Qed.
 
-Lemma fget_fset_same r w k v : v < 2 ^ w -> k + w <= 64 -> fget (fset r w k v) w k = v.
+Lemma fget_fset_same W r w k v : v < 2 ^ w -> k + w <= W -> fget (fset W r w k v) w k = v.
 Proof.
   intros Hv Hk. apply N.bits_inj; intro i. rewrite fget_testbit, fset_testbit.
   destruct (N.ltb_spec i w) as [A|A].
   - destruct (N.leb_spec k (i + k)); [|lia]. destruct (N.ltb_spec (i + k) (k + w)); [|lia].
-    destruct (N.ltb_spec (i + k) 64); [|lia]. cbn [andb negb orb]. rewrite andb_false_r. cbn [orb].
+    destruct (N.ltb_spec (i + k) W); [|lia]. cbn [andb negb orb]. rewrite andb_false_r. cbn [orb].
     rewrite andb_true_r. f_equal. lia.
   - rewrite andb_false_r. symmetry. apply lt_pow2_testbit with (w := w); assumption.
 Qed.
 
-Lemma fget_fset_other r w1 k1 w2 k2 v :
-  v < 2 ^ w2 -> k1 + w1 <= k2 \/ k2 + w2 <= k1 -> fget (fset r w2 k2 v) w1 k1 = fget r w1 k1.
+Lemma fget_fset_other W r w1 k1 w2 k2 v :
+  v < 2 ^ w2 -> k1 + w1 <= k2 \/ k2 + w2 <= k1 -> fget (fset W r w2 k2 v) w1 k1 = fget r w1 k1.
 Proof.
   intros Hv Hd. apply N.bits_inj; intro i. rewrite !fget_testbit, fset_testbit.
   destruct (N.ltb_spec i w1) as [A|A]; [|rewrite !andb_false_r; reflexivity].
@@ -123,36 +127,8 @@ Proof.
   - rewrite andb_false_r. cbn [andb]. rewrite orb_false_r. reflexivity.
 Qed.
 
-Lemma fget_lt r w k : fget r w k < 2 ^ w.
-Proof.
-  destruct (N.eq_dec (fget r w k) 0) as [E|E]; [rewrite E; apply N.neq_0_lt_0, N.pow_nonzero; lia|].
-  apply N.log2_lt_pow2; [lia|].
-  destruct (N.lt_ge_cases (N.log2 (fget r w k)) w) as [L|L]; [exact L|].
-  pose proof (N.bit_log2 _ E) as B. rewrite fget_testbit in B.
-  destruct (N.ltb_spec (N.log2 (fget r w k)) w); [lia|]. rewrite andb_false_r in B. discriminate.
-Qed.
-
-(* the four fields of the reverse token *)
-Lemma tok_set_fifty_eq r fc : tok_set_fifty r fc = fset r 16 32 (Z.to_N (trunc16 fc)).
-Proof. reflexivity. Qed.
-Lemma tok_fifty_eq r : tok_fifty r = wrap16 (Z.of_N (fget r 16 32)).
-Proof. reflexivity. Qed.
-Lemma tok_set_castling_eq r c : tok_set_castling r c = fset r 4 8 c.
-Proof. reflexivity. Qed.
-Lemma tok_castling_eq r : tok_castling r = fget r 4 8.
-Proof.
-  unfold tok_castling. change (shr (band r castlingChangeMask) castlingChangeShift) with (fget r 4 8).
-  change 255 with (N.ones 8). rewrite N.land_ones. apply N.mod_small.
-  pose proof (fget_lt r 4 8). change (2 ^ 4) with 16 in H. change (2 ^ 8) with 256. lia.
-Qed.
-Lemma tok_set_ep_eq r e : tok_set_ep r e = fset r 6 12 e.
-Proof. reflexivity. Qed.
-Lemma tok_ep_eq r : tok_ep r = fget r 6 12.
-Proof. reflexivity. Qed.
-Lemma tok_set_capture_eq r p : tok_set_capture r p = fset r 3 18 p.
-Proof. reflexivity. Qed.
-Lemma tok_capture_eq r : tok_capture r = fget r 3 18.
-Proof. reflexivity. Qed.
+Lemma fget_0 w k : fget 0 w k = 0.
+Proof. unfold fget, shr, band. rewrite N.land_0_l. apply N.shiftr_0_l. Qed.
 
 Lemma trunc16_lt fc : Z.to_N (trunc16 fc) < 2 ^ 16.
 Proof.
@@ -168,48 +144,173 @@ Proof.
   rewrite Z2N.id by lia. lia.
 Qed.
 
-(* every getter against every setter, for ALL tokens r (no 64-bit assumption is needed) *)
-Lemma tok_fifty_set_fifty r fc : (-32768 <= fc < 32768)%Z -> tok_fifty (tok_set_fifty r fc) = fc.
+Lemma land255_small x : x < 256 -> N.land x 255 = x.
+Proof. intros H. change 255 with (N.ones 8). rewrite N.land_ones. apply N.mod_small. exact H. Qed.
+
+(* what [layout_ok] says about one field *)
+Lemma field_ok_facts mask k minw bits : field_ok mask k minw bits = true ->
+  mask = fmask (field_width mask k) k /\ minw <= field_width mask k /\ k + field_width mask k <= bits.
 Proof.
-  intros H. rewrite tok_fifty_eq, tok_set_fifty_eq, fget_fset_same by (try apply trunc16_lt; lia).
+  unfold field_ok. cbv zeta. intros H. apply andb_true_iff in H. destruct H as [H C].
+  apply andb_true_iff in H. destruct H as [A B].
+  apply N.eqb_eq in A. apply N.leb_le in B, C. repeat split; assumption.
+Qed.
+
+Lemma fields_apart_facts m1 k1 m2 k2 : fields_apart m1 k1 m2 k2 = true ->
+  k1 + field_width m1 k1 <= k2 \/ k2 + field_width m2 k2 <= k1.
+Proof. unfold fields_apart. intros H. apply orb_true_iff in H. destruct H as [H|H]; apply N.leb_le in H; auto. Qed.
+
+Lemma pow2_mono v a c : v < 2 ^ a -> a <= c -> v < 2 ^ c.
+Proof. intros H L. eapply N.lt_le_trans; [exact H|]. apply N.pow_le_mono_r; [discriminate|exact L]. Qed.
+
+(* ------------------------------------------------------------------------------------------ *)
+(* the four fields of the reverse token, for every layout with layout_ok l = true:
+   every getter against every setter, for ALL tokens r *)
+
+Section Token.
+Variable l : tok_layout.
+Hypothesis HL : layout_ok l = true.
+
+Local Notation W := (l_bits l).
+Local Notation kf := (l_fifty_shift l).
+Local Notation kc := (l_castling_shift l).
+Local Notation ke := (l_ep_shift l).
+Local Notation kp := (l_capture_shift l).
+Local Notation wf := (field_width (l_fifty_mask l) (l_fifty_shift l)).
+Local Notation wc := (field_width (l_castling_mask l) (l_castling_shift l)).
+Local Notation we := (field_width (l_ep_mask l) (l_ep_shift l)).
+Local Notation wp := (field_width (l_capture_mask l) (l_capture_shift l)).
+
+Lemma layout_facts :
+  (l_fifty_mask l = fmask wf kf /\ 16 <= wf /\ kf + wf <= W) /\
+  (l_castling_mask l = fmask wc kc /\ 4 <= wc /\ kc + wc <= W) /\
+  (l_ep_mask l = fmask we ke /\ 6 <= we /\ ke + we <= W) /\
+  (l_capture_mask l = fmask wp kp /\ 3 <= wp /\ kp + wp <= W) /\
+  (kf + wf <= kc \/ kc + wc <= kf) /\ (kf + wf <= ke \/ ke + we <= kf) /\ (kf + wf <= kp \/ kp + wp <= kf) /\
+  (kc + wc <= ke \/ ke + we <= kc) /\ (kc + wc <= kp \/ kp + wp <= kc) /\ (ke + we <= kp \/ kp + wp <= ke).
+Proof.
+  pose proof HL as H. unfold layout_ok in H.
+  repeat match goal with X : _ && _ = true |- _ => apply andb_true_iff in X; destruct X end.
+  repeat split; try (apply field_ok_facts; assumption); try (eapply field_ok_facts; eassumption);
+    apply fields_apart_facts; assumption.
+Qed.
+
+Lemma tok_set_fifty_eq r fc : tok_set_fifty l r fc = fset W r wf kf (Z.to_N (trunc16 fc)).
+Proof. destruct layout_facts as ((M & _) & _). unfold tok_set_fifty, tok_shl, fset. rewrite <- M. reflexivity. Qed.
+Lemma tok_fifty_eq r : tok_fifty l r = wrap16 (Z.of_N (fget r wf kf)).
+Proof. destruct layout_facts as ((M & _) & _). unfold tok_fifty, fget. rewrite <- M. reflexivity. Qed.
+Lemma tok_set_castling_eq r c : tok_set_castling l r c = fset W r wc kc c.
+Proof. destruct layout_facts as (_ & (M & _) & _). unfold tok_set_castling, tok_shl, fset. rewrite <- M. reflexivity. Qed.
+Lemma tok_castling_eq r : tok_castling l r = N.land (fget r wc kc) 255.
+Proof. destruct layout_facts as (_ & (M & _) & _). unfold tok_castling, fget. rewrite <- M. reflexivity. Qed.
+Lemma tok_set_ep_eq r e : tok_set_ep l r e = fset W r we ke e.
+Proof. destruct layout_facts as (_ & _ & (M & _) & _). unfold tok_set_ep, tok_shl, fset. rewrite <- M. reflexivity. Qed.
+Lemma tok_ep_eq r : tok_ep l r = fget r we ke.
+Proof. destruct layout_facts as (_ & _ & (M & _) & _). unfold tok_ep, fget. rewrite <- M. reflexivity. Qed.
+Lemma tok_set_capture_eq r p : tok_set_capture l r p = fset W r wp kp p.
+Proof. destruct layout_facts as (_ & _ & _ & (M & _) & _). unfold tok_set_capture, tok_shl, fset. rewrite <- M. reflexivity. Qed.
+Lemma tok_capture_eq r : tok_capture l r = N.land (fget r wp kp) 255.
+Proof. destruct layout_facts as (_ & _ & _ & (M & _) & _). unfold tok_capture, fget. rewrite <- M. reflexivity. Qed.
+
+Lemma fc_fits fc : Z.to_N (trunc16 fc) < 2 ^ wf.
+Proof. destruct layout_facts as ((_ & A & _) & _). apply (pow2_mono _ 16); [apply trunc16_lt|exact A]. Qed.
+Lemma c_fits c : c < 16 -> c < 2 ^ wc.
+Proof. destruct layout_facts as (_ & (_ & A & _) & _). intros H. apply (pow2_mono _ 4); [exact H|exact A]. Qed.
+Lemma e_fits e : e < 64 -> e < 2 ^ we.
+Proof. destruct layout_facts as (_ & _ & (_ & A & _) & _). intros H. apply (pow2_mono _ 6); [exact H|exact A]. Qed.
+Lemma p_fits p : p < 8 -> p < 2 ^ wp.
+Proof. destruct layout_facts as (_ & _ & _ & (_ & A & _) & _). intros H. apply (pow2_mono _ 3); [exact H|exact A]. Qed.
+
+Lemma tok_fifty_set_fifty r fc : (-32768 <= fc < 32768)%Z -> tok_fifty l (tok_set_fifty l r fc) = fc.
+Proof.
+  intros H. destruct layout_facts as ((_ & _ & B) & _).
+  rewrite tok_fifty_eq, tok_set_fifty_eq, fget_fset_same by (try apply fc_fits; exact B).
   apply wrap16_trunc16. exact H.
 Qed.
-Lemma tok_fifty_set_castling r c : c < 16 -> tok_fifty (tok_set_castling r c) = tok_fifty r.
-Proof. intros H. rewrite !tok_fifty_eq, tok_set_castling_eq, fget_fset_other by (try exact H; lia). reflexivity. Qed.
-Lemma tok_fifty_set_ep r e : e < 64 -> tok_fifty (tok_set_ep r e) = tok_fifty r.
-Proof. intros H. rewrite !tok_fifty_eq, tok_set_ep_eq, fget_fset_other by (try exact H; lia). reflexivity. Qed.
-Lemma tok_fifty_set_capture r p : p < 8 -> tok_fifty (tok_set_capture r p) = tok_fifty r.
-Proof. intros H. rewrite !tok_fifty_eq, tok_set_capture_eq, fget_fset_other by (try exact H; lia). reflexivity. Qed.
+Lemma tok_fifty_set_castling r c : c < 16 -> tok_fifty l (tok_set_castling l r c) = tok_fifty l r.
+Proof.
+  intros H. destruct layout_facts as (_ & _ & _ & _ & D & _).
+  rewrite !tok_fifty_eq, tok_set_castling_eq, fget_fset_other by (try apply c_fits; assumption). reflexivity.
+Qed.
+Lemma tok_fifty_set_ep r e : e < 64 -> tok_fifty l (tok_set_ep l r e) = tok_fifty l r.
+Proof.
+  intros H. destruct layout_facts as (_ & _ & _ & _ & _ & D & _).
+  rewrite !tok_fifty_eq, tok_set_ep_eq, fget_fset_other by (try apply e_fits; assumption). reflexivity.
+Qed.
+Lemma tok_fifty_set_capture r p : p < 8 -> tok_fifty l (tok_set_capture l r p) = tok_fifty l r.
+Proof.
+  intros H. destruct layout_facts as (_ & _ & _ & _ & _ & _ & D & _).
+  rewrite !tok_fifty_eq, tok_set_capture_eq, fget_fset_other by (try apply p_fits; assumption). reflexivity.
+Qed.
 
-Lemma tok_castling_set_castling r c : c < 16 -> tok_castling (tok_set_castling r c) = c.
-Proof. intros H. rewrite tok_castling_eq, tok_set_castling_eq. apply fget_fset_same; [exact H|lia]. Qed.
-Lemma tok_castling_set_fifty r fc : tok_castling (tok_set_fifty r fc) = tok_castling r.
-Proof. rewrite !tok_castling_eq, tok_set_fifty_eq. apply fget_fset_other; [apply trunc16_lt|lia]. Qed.
-Lemma tok_castling_set_ep r e : e < 64 -> tok_castling (tok_set_ep r e) = tok_castling r.
-Proof. intros H. rewrite !tok_castling_eq, tok_set_ep_eq. apply fget_fset_other; [exact H|lia]. Qed.
-Lemma tok_castling_set_capture r p : p < 8 -> tok_castling (tok_set_capture r p) = tok_castling r.
-Proof. intros H. rewrite !tok_castling_eq, tok_set_capture_eq. apply fget_fset_other; [exact H|lia]. Qed.
+Lemma tok_castling_set_castling r c : c < 16 -> tok_castling l (tok_set_castling l r c) = c.
+Proof.
+  intros H. destruct layout_facts as (_ & (_ & _ & B) & _).
+  rewrite tok_castling_eq, tok_set_castling_eq, fget_fset_same by (try apply c_fits; assumption).
+  apply land255_small. lia.
+Qed.
+Lemma tok_castling_set_fifty r fc : tok_castling l (tok_set_fifty l r fc) = tok_castling l r.
+Proof.
+  destruct layout_facts as (_ & _ & _ & _ & D & _).
+  rewrite !tok_castling_eq, tok_set_fifty_eq, fget_fset_other by (try apply fc_fits; lia). reflexivity.
+Qed.
+Lemma tok_castling_set_ep r e : e < 64 -> tok_castling l (tok_set_ep l r e) = tok_castling l r.
+Proof.
+  intros H. destruct layout_facts as (_ & _ & _ & _ & _ & _ & _ & D & _).
+  rewrite !tok_castling_eq, tok_set_ep_eq, fget_fset_other by (try apply e_fits; assumption). reflexivity.
+Qed.
+Lemma tok_castling_set_capture r p : p < 8 -> tok_castling l (tok_set_capture l r p) = tok_castling l r.
+Proof.
+  intros H. destruct layout_facts as (_ & _ & _ & _ & _ & _ & _ & _ & D & _).
+  rewrite !tok_castling_eq, tok_set_capture_eq, fget_fset_other by (try apply p_fits; assumption). reflexivity.
+Qed.
 
-Lemma tok_ep_set_ep r e : e < 64 -> tok_ep (tok_set_ep r e) = e.
-Proof. intros H. rewrite tok_ep_eq, tok_set_ep_eq. apply fget_fset_same; [exact H|lia]. Qed.
-Lemma tok_ep_set_fifty r fc : tok_ep (tok_set_fifty r fc) = tok_ep r.
-Proof. rewrite !tok_ep_eq, tok_set_fifty_eq. apply fget_fset_other; [apply trunc16_lt|lia]. Qed.
-Lemma tok_ep_set_castling r c : c < 16 -> tok_ep (tok_set_castling r c) = tok_ep r.
-Proof. intros H. rewrite !tok_ep_eq, tok_set_castling_eq. apply fget_fset_other; [exact H|lia]. Qed.
-Lemma tok_ep_set_capture r p : p < 8 -> tok_ep (tok_set_capture r p) = tok_ep r.
-Proof. intros H. rewrite !tok_ep_eq, tok_set_capture_eq. apply fget_fset_other; [exact H|lia]. Qed.
+Lemma tok_ep_set_ep r e : e < 64 -> tok_ep l (tok_set_ep l r e) = e.
+Proof.
+  intros H. destruct layout_facts as (_ & _ & (_ & _ & B) & _).
+  rewrite tok_ep_eq, tok_set_ep_eq. apply fget_fset_same; [apply e_fits; exact H|exact B].
+Qed.
+Lemma tok_ep_set_fifty r fc : tok_ep l (tok_set_fifty l r fc) = tok_ep l r.
+Proof.
+  destruct layout_facts as (_ & _ & _ & _ & _ & D & _).
+  rewrite !tok_ep_eq, tok_set_fifty_eq. apply fget_fset_other; [apply fc_fits|lia].
+Qed.
+Lemma tok_ep_set_castling r c : c < 16 -> tok_ep l (tok_set_castling l r c) = tok_ep l r.
+Proof.
+  intros H. destruct layout_facts as (_ & _ & _ & _ & _ & _ & _ & D & _).
+  rewrite !tok_ep_eq, tok_set_castling_eq. apply fget_fset_other; [apply c_fits; exact H|lia].
+Qed.
+Lemma tok_ep_set_capture r p : p < 8 -> tok_ep l (tok_set_capture l r p) = tok_ep l r.
+Proof.
+  intros H. destruct layout_facts as (_ & _ & _ & _ & _ & _ & _ & _ & _ & D).
+  rewrite !tok_ep_eq, tok_set_capture_eq. apply fget_fset_other; [apply p_fits; exact H|exact D].
+Qed.
 
-Lemma tok_capture_set_capture r p : p < 8 -> tok_capture (tok_set_capture r p) = p.
-Proof. intros H. rewrite tok_capture_eq, tok_set_capture_eq. apply fget_fset_same; [exact H|lia]. Qed.
-Lemma tok_capture_set_fifty r fc : tok_capture (tok_set_fifty r fc) = tok_capture r.
-Proof. rewrite !tok_capture_eq, tok_set_fifty_eq. apply fget_fset_other; [apply trunc16_lt|lia]. Qed.
-Lemma tok_capture_set_castling r c : c < 16 -> tok_capture (tok_set_castling r c) = tok_capture r.
-Proof. intros H. rewrite !tok_capture_eq, tok_set_castling_eq. apply fget_fset_other; [exact H|lia]. Qed.
-Lemma tok_capture_set_ep r e : e < 64 -> tok_capture (tok_set_ep r e) = tok_capture r.
-Proof. intros H. rewrite !tok_capture_eq, tok_set_ep_eq. apply fget_fset_other; [exact H|lia]. Qed.
+Lemma tok_capture_set_capture r p : p < 8 -> tok_capture l (tok_set_capture l r p) = p.
+Proof.
+  intros H. destruct layout_facts as (_ & _ & _ & (_ & _ & B) & _).
+  rewrite tok_capture_eq, tok_set_capture_eq, fget_fset_same by (try apply p_fits; assumption).
+  apply land255_small. lia.
+Qed.
+Lemma tok_capture_set_fifty r fc : tok_capture l (tok_set_fifty l r fc) = tok_capture l r.
+Proof.
+  destruct layout_facts as (_ & _ & _ & _ & _ & _ & D & _).
+  rewrite !tok_capture_eq, tok_set_fifty_eq, fget_fset_other by (try apply fc_fits; lia). reflexivity.
+Qed.
+Lemma tok_capture_set_castling r c : c < 16 -> tok_capture l (tok_set_castling l r c) = tok_capture l r.
+Proof.
+  intros H. destruct layout_facts as (_ & _ & _ & _ & _ & _ & _ & _ & D & _).
+  rewrite !tok_capture_eq, tok_set_castling_eq, fget_fset_other by (try apply c_fits; try assumption; lia). reflexivity.
+Qed.
+Lemma tok_capture_set_ep r e : e < 64 -> tok_capture l (tok_set_ep l r e) = tok_capture l r.
+Proof.
+  intros H. destruct layout_facts as (_ & _ & _ & _ & _ & _ & _ & _ & _ & D).
+  rewrite !tok_capture_eq, tok_set_ep_eq, fget_fset_other by (try apply e_fits; try assumption; lia). reflexivity.
+Qed.
 
-Lemma tok_ep_0 : tok_ep 0 = 0.
-Proof. reflexivity. Qed.
+Lemma tok_ep_0 : tok_ep l 0 = 0.
+Proof. rewrite tok_ep_eq. apply fget_0. Qed.
+End Token.
 
 (* ------------------------------------------------------------------------------------------ *)
 (* addPiece / removePiece without the hash delta *)
